@@ -28,7 +28,7 @@ LIBSRC = {"crypto_entropy.c", "sha256.c", "sha256_shani.c", "sha256_sse2.c", "cp
 def build(B):
     assert "X86_RDRAND" not in B.DEFAULT_CPU
     core = B.compile_cxx(os.path.join(HERE, "core.cpp"))
-    wraps = ["open", "read", "close"]
+    wraps = ["open", "read", "close", "time"]
     libs = ["-lrapidcheck", "-lcrypto", "-lcryptopp"]
     # binary 1: util/entropy.c left out, shim.c supplies entropy_read (scripted)
     lib1 = B.build_lib("asan", only=LIBSRC)
